@@ -207,16 +207,21 @@ func NewSWorld(filters []FilterSpec, extra map[string]any) (*SWorld, error) {
 			o["logout"] = lo
 		}
 		if f.Redis != "" {
-			mr, ok := sw.Redis[f.Redis]
+			name, db := RedisNameDB(f.Redis)
+			mr, ok := sw.Redis[name]
 			if !ok {
 				var err error
 				mr, err = miniredis.Run()
 				if err != nil {
 					return nil, err
 				}
-				sw.Redis[f.Redis] = mr
+				sw.Redis[name] = mr
 			}
-			o["redis_session_store_config"] = map[string]any{"server_uri": "redis://" + mr.Addr()}
+			uri := "redis://" + mr.Addr()
+			if strings.Contains(f.Redis, "/") {
+				uri += fmt.Sprintf("/%d", db)
+			}
+			o["redis_session_store_config"] = map[string]any{"server_uri": uri}
 		}
 		chains = append(chains, map[string]any{"name": f.Name, "match": map[string]any{"header": "x-tenant", "equality": f.Name},
 			"filters": []any{map[string]any{"oidc": o}}})
@@ -274,6 +279,16 @@ func (sw *SWorld) Close() {
 	for _, m := range sw.Redis {
 		m.Close()
 	}
+}
+
+// RedisNameDB splits a logical redis reference "r1/2" into server name and database number.
+func RedisNameDB(ref string) (string, int) {
+	name, dbs, ok := strings.Cut(ref, "/")
+	db := 0
+	if ok {
+		fmt.Sscanf(dbs, "%d", &db)
+	}
+	return name, db
 }
 
 // SReq is a request to the assembled service.
